@@ -1,22 +1,28 @@
 # Build of the verification framework: Coq development (full .vo build), extraction, OCaml driver.
+# `make setup` is incremental: the driver is re-extracted and re-linked only when a compiled theory,
+# Extract.v or driver.ml is newer than it, and it is replaced atomically (checks may run concurrently).
 SHELL := /bin/bash
 COQDIR := coq
 BUILD := build
+VOFILES := $(patsubst %.v,%.vo,$(shell grep '^theories/' $(COQDIR)/_CoqProject | sed 's|^|$(COQDIR)/|'))
 .PHONY: setup coq driver clean selftest
 
-setup: coq driver selftest
+setup: coq
+	@$(MAKE) --no-print-directory $(BUILD)/driver
 
 coq:
-	cd $(COQDIR) && coq_makefile -f _CoqProject -o Makefile.coq >/dev/null 2>&1 && timeout 3000 $(MAKE) -f Makefile.coq -j16
+	cd $(COQDIR) && ( [ -f Makefile.coq ] && [ Makefile.coq -nt _CoqProject ] || coq_makefile -f _CoqProject -o Makefile.coq >/dev/null 2>&1 ) && timeout 3000 $(MAKE) -f Makefile.coq -j16
 
-driver: coq
-	mkdir -p $(BUILD)
-	cd $(BUILD) && timeout 600 coqc -Q ../$(COQDIR)/theories MS ../$(COQDIR)/extract/Extract.v >/dev/null && rm -f ../$(COQDIR)/extract/Extract.vo ../$(COQDIR)/extract/Extract.glob ../$(COQDIR)/extract/.Extract.aux
-	cp $(COQDIR)/extract/driver.ml $(BUILD)/driver.ml
-	cd $(BUILD) && timeout 600 ocamlfind ocamlopt -O3 -w -a model.mli model.ml driver.ml -o driver
+driver: $(BUILD)/driver
 
-selftest: driver
-	@printf 'B new abcd 10 L\nB add 03:2:L:6 80:1:R:7\n' | $(BUILD)/driver | tr '\n' ' ' | grep -q 'OK 03cd:10:L:6 OK 07:3:L:5' && echo "driver self-test ok"
+$(BUILD)/driver: $(COQDIR)/extract/Extract.v $(COQDIR)/extract/driver.ml $(VOFILES)
+	mkdir -p $(BUILD)/x.$$$$ && cd $(BUILD)/x.$$$$ && \
+	timeout 600 coqc -Q ../../$(COQDIR)/theories MS ../../$(COQDIR)/extract/Extract.v >/dev/null && \
+	rm -f ../../$(COQDIR)/extract/Extract.vo ../../$(COQDIR)/extract/Extract.glob ../../$(COQDIR)/extract/.Extract.aux ../../$(COQDIR)/extract/Extract.vok ../../$(COQDIR)/extract/Extract.vos && \
+	cp ../../$(COQDIR)/extract/driver.ml driver.ml && \
+	timeout 600 ocamlfind ocamlopt -O3 -w -a model.mli model.ml driver.ml -o driver && \
+	printf 'B new abcd 10 L\nB add 03:2:L:6 80:1:R:7\n' | ./driver | tr '\n' ' ' | grep -q 'OK 03cd:10:L:6 OK 07:3:L:5' && \
+	mv -f driver ../driver && cd .. && rm -rf x.$$$$ && echo "driver built, self-test ok"
 
 clean:
 	rm -rf $(BUILD); cd $(COQDIR) && rm -f Makefile.coq Makefile.coq.conf .*.aux */*.vo */*.vok */*.vos */*.glob */.*.aux .lia.cache
